@@ -12,8 +12,8 @@ func init() {
 		Rule: vestRuleCommon + "C05 oracle: module balance == sum(initially_locked-sent-withdrawn), pool bounds, and a rejected transaction changes nothing but the signer's sequence/pubkey and the fee. " +
 			"Non-trivial: >=3 pools alive, >=1 withdrawal>0, >=1 rejected transaction; the count of rejected sends that had already run the implicit withdrawal is reported. Distinct by history hash.",
 		Assumptions:   []string{"baseapp's per-transaction cache and rollback are the production ones (real DeliverTx)"},
-		Cases:         func(t string) int { return tierN(t, 64, 3000) },
-		MinNontrivial: func(t string) int { return tierN(t, 20, 1000) },
+		Cases:         func(t string) int { return tierN(t, 256, 3000) },
+		MinNontrivial: func(t string) int { return tierN(t, 80, 1000) },
 		Run: func(c *fw.Case) {
 			e := runVestScenario(c, "C05")
 			if e == nil {
@@ -30,8 +30,8 @@ func init() {
 		ID: "C06", Level: "exploration",
 		Rule: vestRuleCommon + "C06 oracle: per pool, withdrawn grows by exactly the still-locked remainder iff block time >= lock end (explicit and implicit withdrawals), payout and response equal the sum, a repeated withdrawal pays 0, the VestingPools query in the same block agrees with store and payout, sent grows only through a successful send that creates a new continuous vesting account. " +
 			"Non-trivial: >=1 withdrawal exactly at a lock-end instant or with matured and locked pools side by side. Distinct by history hash.",
-		Cases:         func(t string) int { return tierN(t, 64, 3000) },
-		MinNontrivial: func(t string) int { return tierN(t, 10, 600) },
+		Cases:         func(t string) int { return tierN(t, 256, 3000) },
+		MinNontrivial: func(t string) int { return tierN(t, 40, 600) },
 		Run: func(c *fw.Case) {
 			e := runVestScenario(c, "C06")
 			if e == nil {
@@ -44,8 +44,8 @@ func init() {
 		ID: "C08", Level: "exploration",
 		Rule: vestRuleCommon + "C08 oracle (big.Rat): recipient did not exist, is a continuous vesting account with balance == amount, original vesting == floor(amount*(1-free)), start/end per restart flag and lock end, sent += amount, over-remainder sends never succeed, valid sends to fresh addresses never fail; direct creation transfers and vests exactly the given coins. " +
 			"Non-trivial: >=1 successful send with free not in {0,1} and a non-integer free part, or an exact-remainder send. Distinct by history hash.",
-		Cases:         func(t string) int { return tierN(t, 64, 3000) },
-		MinNontrivial: func(t string) int { return tierN(t, 10, 600) },
+		Cases:         func(t string) int { return tierN(t, 256, 3000) },
+		MinNontrivial: func(t string) int { return tierN(t, 40, 600) },
 		Run: func(c *fw.Case) {
 			e := runVestScenario(c, "C08")
 			if e == nil {
@@ -58,8 +58,8 @@ func init() {
 		ID: "C17", Level: "exploration",
 		Rule: vestRuleCommon + "C17 oracle: the harness keeps its own lineage closure (pool's genesis flag; split/move children inherit) and compares it with the trace store after blocks and messages; VestingsSummary and GenesisVestingsSummary are recomputed from bank + auth state (SDK account methods for vesting/locked coins, own summation). " +
 			"Non-trivial: lineage depth >=2 reached and delegated vesting >0 at some summary, or depth >=3. Distinct by history hash.",
-		Cases:         func(t string) int { return tierN(t, 64, 3000) },
-		MinNontrivial: func(t string) int { return tierN(t, 8, 400) },
+		Cases:         func(t string) int { return tierN(t, 256, 3000) },
+		MinNontrivial: func(t string) int { return tierN(t, 32, 400) },
 		Run: func(c *fw.Case) {
 			e := runVestScenarioP(c, "split", "C17")
 			if e == nil {
